@@ -102,6 +102,11 @@ pub struct CaseCfg {
 
 /// Generate a descriptor case. Keys are drawn from the world's universe.
 pub fn gen_desc_case(rng: &mut Rng, world: &World, cfg: &CaseCfg) -> DescCase {
+    gen_desc_case_with(rng, world, cfg, world)
+}
+
+/// Same, printing keys through `names` (e.g. xpub expressions for some key ids).
+pub fn gen_desc_case_with(rng: &mut Rng, world: &World, cfg: &CaseCfg, names: &dyn Names) -> DescCase {
     let r = rng.below(100);
     let kind = match r {
         0..=2 => DescKind::Pk,
@@ -123,7 +128,7 @@ pub fn gen_desc_case(rng: &mut Rng, world: &World, cfg: &CaseCfg) -> DescCase {
             let inner = if kind == DescKind::Pk { Frag::PkK(k) } else { Frag::PkH(k) };
             DescCase {
                 kind,
-                desc: format!("{}({})", name, world.key(&k)),
+                desc: format!("{}({})", name, names.key(&k)),
                 frags: vec![Frag::Check(Box::new(inner))],
                 internal: None,
                 cx: None,
@@ -132,9 +137,9 @@ pub fn gen_desc_case(rng: &mut Rng, world: &World, cfg: &CaseCfg) -> DescCase {
         DescKind::Wpkh | DescKind::ShWpkh => {
             let k = KeyRef { id: kid, form: KeyForm::Compressed };
             let s = if kind == DescKind::Wpkh {
-                format!("wpkh({})", world.key(&k))
+                format!("wpkh({})", names.key(&k))
             } else {
-                format!("sh(wpkh({}))", world.key(&k))
+                format!("sh(wpkh({}))", names.key(&k))
             };
             DescCase {
                 kind,
@@ -171,7 +176,7 @@ pub fn gen_desc_case(rng: &mut Rng, world: &World, cfg: &CaseCfg) -> DescCase {
             };
             DescCase {
                 kind,
-                desc: f.to_string_with(world),
+                desc: f.to_string_with(names),
                 frags: vec![f],
                 internal: None,
                 cx: Some(Cx::Bare),
@@ -185,7 +190,7 @@ pub fn gen_desc_case(rng: &mut Rng, world: &World, cfg: &CaseCfg) -> DescCase {
             let budget = 1 + rng.below(cfg.max_nodes);
             let mut g = Gen::new(rng, gc);
             let f = g.gen(Base::B, budget);
-            let ms = f.to_string_with(world);
+            let ms = f.to_string_with(names);
             let desc = match kind {
                 DescKind::Sh => format!("sh({})", ms),
                 DescKind::Wsh => format!("wsh({})", ms),
@@ -209,10 +214,10 @@ pub fn gen_desc_case(rng: &mut Rng, world: &World, cfg: &CaseCfg) -> DescCase {
                 }
             }
             let desc = if n_leaves == 0 {
-                format!("tr({})", world.key(&internal))
+                format!("tr({})", names.key(&internal))
             } else {
-                let ls: Vec<String> = frags.iter().map(|f| f.to_string_with(world)).collect();
-                format!("tr({},{})", world.key(&internal), tap_tree_string(rng, &ls))
+                let ls: Vec<String> = frags.iter().map(|f| f.to_string_with(names)).collect();
+                format!("tr({},{})", names.key(&internal), tap_tree_string(rng, &ls))
             };
             DescCase { kind, desc, frags, internal: Some(internal), cx: Some(Cx::Tap) }
         }
